@@ -874,6 +874,16 @@ static bool p_missing_space(Work &W, Env &E, Plan &P) {
             variant = "quoted+x";
         } else variant = a.style == S_TEXT ? "textfield+x" : (a.style == S_TSQ || a.style == S_TDQ) ? "triple+x" : "quoted+x";
     }
+    if (variant == "bare+open" && *g::chance(60)) {
+        // the bare word before the bracket: of any length (the scanner compares the first characters of a bare word with the reserved
+        // data_/save_ prefixes, so words longer than those prefixes and words that are a prefix of them take other paths)
+        static const char *SPECIAL[] = {"dat", "DATA", "sav", "save", "d", "S", "loo", "glob", "stop"};
+        std::string w;
+        if (*g::chance(35)) w = SPECIAL[(size_t) *g::range(0, 8)];
+        else { int n = *g::range(5, 14); uint32_t r = (uint32_t) *g::range(0, 0x3fffffff); for (int k = 0; k < n; k++) w += (char) ((k % 3 == 2 ? '0' : 'a') + (int) ((r >> (2 * k)) & 7)); }
+        replace_scalar(W, P, i, Value::chr(u16(w), false), w, w);
+        P.pos.push_back(w.size() >= 5 ? "bare-word>=5" : "bare-word-short");
+    }
     if (comment && variant != "bare+open") { P.toks[(size_t) i].s += "#comment"; P.toks[(size_t) i].nl_after = true; variant += "+comment"; }
     else { P.toks[(size_t) i].glue = true; P.toks[(size_t) i].nl_after = false; }
     P.first = {CIF_MISSING_SPACE}; P.lo_tok = i; P.lo_mode = 1; P.hi_tok = i + 1;
